@@ -4,6 +4,7 @@ pub mod c01;
 pub mod c02;
 pub mod c03;
 pub mod c04;
+pub mod c13;
 pub mod dom;
 
 pub struct Entry {
@@ -20,6 +21,7 @@ pub const ENTRIES: &[Entry] = &[
     Entry { id: "C10", run: dom::run_c10 },
     Entry { id: "C11", run: dom::run_c11 },
     Entry { id: "C12", run: dom::run_c12 },
+    Entry { id: "C13", run: c13::run },
 ];
 
 pub fn lookup(id: &str) -> Option<&'static Entry> {
